@@ -2,7 +2,7 @@ SPECIFICATION Spec
 CONSTANTS
   Modes = {"WebRtc", "Srtp", "Rtp"}
   MaxLen = 6
-  Ops = {"Push", "Raw", "InClearRtp", "InClearRtcp", "InForged", "InValid", "Keys", "Close"}
+  Ops = {"Push", "Raw", "InClearRtp", "InClearRtcp", "InForged", "InValid", "Keys", "Close", "InValidNack", "Gap", "KeyFrame", "Report"}
   Deviations = {}
 VIEW view
 INVARIANTS TypeOK
